@@ -83,6 +83,22 @@ def _patch_crosshair_perf() -> None:
     L.__getitem__ = __getitem__
     L._vf_fast = True
 
+    # Model bug in crosshair 0.0.110: MapBase.__ror__ = __or__, so ``concrete_dict | symbolic_map``
+    # let the LEFT operand's values win.  CPython: the right operand wins.  (visit() applies
+    # edits with ``{...} | dict(edits)``; without this every edit whose value is symbolic is lost
+    # and the counterexample does not replay.)
+    from collections.abc import Mapping
+    from crosshair import simplestructs as S
+
+    def __ror__(self, other):
+        if not isinstance(other, Mapping):
+            return NotImplemented
+        union_map = S.ShellMutableMap(S.SimpleDict(list(other.items())))
+        union_map.update(self)
+        return union_map
+
+    S.MapBase.__ror__ = __ror__
+
 
 def _jsonable(v: Any, depth: int = 0) -> Any:
     if depth > 6:
